@@ -13,6 +13,43 @@ from ..util import callee_name, all_calls, arg, need, names_in, single_def
 CROP = "xyzpy.gen.cropping"
 
 
+def reaper_loaders(ctx):
+    """The Reaper's loader functions, found by role (closures of __init__ or
+    methods alike): -> (loader, waiter, init)
+    loader = the function in the Reaper that reads a result from disk;
+    waiter = the function that polls for existence in a while loop."""
+    prog = ctx.prog
+    reaper = prog.need_cls(CROP + ".Reaper")
+    init = reaper.methods.get("__init__")
+    need(init is not None, "anchor lost: Reaper.__init__")
+    cands = list(reaper.methods.values())
+    for m in list(reaper.methods.values()):
+        cands += list(m.nested.values())
+    loader = waiter = None
+
+    def polls(fn):
+        return any(isinstance(n, ast.While) for n in walk_shallow(fn.node)) and any(nm in ("os.path.exists", "os.path.isfile") for _, _, nm in all_calls(ctx, fn))
+    for f in cands:
+        if any(nm == CROP + ".read_from_disk" for _, _, nm in all_calls(ctx, f)) and loader is None:
+            loader = f
+    for f in cands:
+        if f is loader or loader is None:
+            continue
+        calls_loader = any(nm == loader.qualname for _, _, nm in all_calls(ctx, f))
+        if not calls_loader:
+            continue
+        helper_poll = False
+        for _, c, nm in all_calls(ctx, f):
+            from ..util import callee_func
+            cf = callee_func(ctx, f, c)
+            if cf is not None and cf is not loader and polls(cf):
+                helper_poll = True
+        if (polls(f) or helper_poll) and waiter is None:
+            waiter = f
+    need(loader is not None, "anchor lost: no function of the Reaper reads a result from disk")
+    return loader, waiter, init
+
+
 # ---------------------------------------------------------------- decision table
 class _TableInter(Inter):
     """is_ready_to_reap() is an input of the table, supplied by the valuation."""
@@ -141,10 +178,8 @@ def load_errors_propagate_rule(ctx, rid):
     """An unreadable / short / empty result is refused, never papered over."""
     prog = ctx.prog
     rr = ctx.rule(rid, "result load failures propagate; empty results and leftovers raise", floor=5)
-    init = prog.need_func(CROP + ".Reaper.__init__")
-    ld = init.nested.get("_load")
-    wl = init.nested.get("wait_to_load")
-    need(ld is not None and wl is not None, "anchor lost: Reaper loaders")
+    ld, wl, init = reaper_loaders(ctx)
+    need(wl is not None, "anchor lost: the Reaper's polling loader")
     rfd = prog.need_func(CROP + ".read_from_disk")
     crop = prog.need_cls(CROP + ".Crop")
     anr = crop.methods.get("all_nan_result")
@@ -395,3 +430,61 @@ def precedence_rule(ctx, rid):
                 okc = True
     need(okc, "anchor lost: combo_runner_to_ds -> combo_runner_core")
     return rr
+
+
+# ---------------------------------------------------------------- settings record
+def record_table(ctx):
+    """The settings record written by Crop.save_info as {key: value text},
+    expanding ``**{a: getattr(self, a) for a in CONSTANT_TUPLE}``; and the
+    restore table of _sync_info_from_disk as {attribute: key}.
+    -> (save_info FuncInfo, dict node, written, restored)"""
+    from ..util import ConstFold
+    prog = ctx.prog
+    crop = prog.need_cls(CROP + ".Crop")
+    si = crop.methods.get("save_info")
+    sy = crop.methods.get("_sync_info_from_disk")
+    need(si is not None and sy is not None, "anchor lost: Crop.save_info / _sync_info_from_disk")
+    rec = None
+    for nd, c, nm in all_calls(ctx, si):
+        if nm == CROP + ".write_to_disk" and c.args:
+            a0 = c.args[0]
+            if isinstance(a0, ast.Name):
+                d = single_def(si, a0.id)
+                a0 = d[1] if d else a0
+            if isinstance(a0, ast.Dict):
+                rec = a0
+    need(rec is not None, "idiom changed: save_info does not write a dict display")
+    written = {}
+    for k, v in zip(rec.keys, rec.values):
+        if isinstance(k, ast.Constant):
+            written[k.value] = norm(v)
+        elif k is None:
+            if isinstance(v, ast.DictComp) and len(v.generators) == 1 and isinstance(v.generators[0].target, ast.Name):
+                var = v.generators[0].target.id
+                try:
+                    items = ConstFold(ctx, si).ev(v.generators[0].iter)
+                except AnalysisError:
+                    raise AnalysisError("idiom changed: settings record splat over a non-constant sequence: %s" % norm(v))
+                for it in items:
+                    if norm(v.key) == var and norm(v.value) == "getattr(self, %s)" % var:
+                        written[it] = "self." + it
+                    else:
+                        raise AnalysisError("idiom changed: settings record comprehension %s" % norm(v))
+            else:
+                raise AnalysisError("idiom changed: settings record splat %s" % norm(v))
+    restored = {}
+    g = build_cfg(sy.node)
+    for nd in g.nodes:
+        if nd.kind == "stmt" and isinstance(nd.ast, ast.Assign) and isinstance(nd.ast.value, ast.Subscript) and norm(nd.ast.value.value) == "settings" \
+                and isinstance(nd.ast.value.slice, ast.Constant) and norm(nd.ast.targets[0]).startswith("self."):
+            restored[norm(nd.ast.targets[0])] = nd.ast.value.slice.value
+        if nd.kind == "for" and isinstance(nd.ast.target, ast.Name):
+            var = nd.ast.target.id
+            body = nd.ast.body
+            if len(body) == 1 and isinstance(body[0], ast.Expr) and norm(body[0].value) == "setattr(self, %s, settings[%s])" % (var, var):
+                try:
+                    for it in ConstFold(ctx, sy).ev(nd.ast.iter):
+                        restored["self." + it] = it
+                except AnalysisError:
+                    raise AnalysisError("idiom changed: restore loop over a non-constant sequence")
+    return si, rec, written, restored
